@@ -537,6 +537,26 @@ def options_plumbing(ctx, P, funcs=None, rule="OPTION-PLUMBING", freeze=False):
                 ok = False
                 why += ": C default changed from %s to %s" % (e["default"], c["default"])
             ctx.ob(rule, key, ok, tu.loc(c["_node"]), why)
+            # independence: the test of one keyword is not the `else` of another's (`if (!a) {..} else if (!b) {..}` loses b's flag
+            # whenever a's is set)
+            par = {}
+            for x_ in walk(fn.body):
+                for k_ in (x_.kids or []):
+                    if k_ is not None:
+                        par[id(k_)] = x_
+            node = c["_node"]
+            dep = None
+            cur_ = node
+            while id(cur_) in par:
+                p_ = par[id(cur_)]
+                if p_.k == "IfStmt" and len(p_.kids) > 2 and p_.kids[2] is cur_:
+                    dep = p_
+                    break
+                cur_ = p_
+            ctx.ob(rule, key + "|independent", dep is None, tu.loc(node),
+                   "`%s` is tested on its own" % e["kw"] if dep is None else
+                   "the flag of `%s` is set only in the else-branch of `if (%s)`: it is lost whenever that test holds"
+                   % (e["kw"], " ".join(tu.src(dep.kids[0]).split())[:40]))
     # new option-setting code not in the table is analysed for sense parity only
     for fname, es in got.items():
         if funcs is not None and fname not in funcs:
